@@ -83,14 +83,18 @@ class SliceAccessor(Accessor):
     def __getitem__(self, subscript):
         if isinstance(subscript, slice):
             # Acquiris Quodcumquae Rapis
+            # As in segyio, a slice is a range of line *numbers* (default step 1, whichever way the axis
+            # runs in the file), of which the lines present in the file are returned
+            keys = [int(key) for key in self.keys_object]
             start, stop, step = subscript.start, subscript.stop, subscript.step
-            if step is None:
-                step = int(self.keys_object[1] - self.keys_object[0])
+            increasing = step is None or step > 0
             if start is None:
-                start = int(self.keys_object[0])
+                start = min(keys) if increasing else max(keys)
             if stop is None:
-                stop = int(self.keys_object[-1] + 1)
-            return [self.values_function(index) for index in range(start, stop, step)]
+                stop = max(keys) + 1 if increasing else min(keys) - 1
+            if step is None:
+                step = 1
+            return [self.values_function(index) for index in range(start, stop, step) if index in keys]
         else:
             return self.values_function(subscript)
 
